@@ -291,6 +291,30 @@ def bounded_early_cues(ctx, b):
             b.guard(("early", Wr.__name__, tuple(spans)), one, sample={"writer": Wr.__name__, "spans": spans})
 
 
+def bounded_blank_first_cue(ctx, b):
+    """a caption set whose FIRST cue holds nothing but white space (a blank, a tab, a no-break space, nothing) and is
+    followed by a cue with text: the document starts with a cue that has no text of its own; it is still the writer's
+    format, and the reader of that format reads it (the cue with text is there)"""
+    pairs = [(SRTWriter, SRTReader), (WebVTTWriter, WebVTTReader), (DFXPWriter, DFXPReader), (SAMIWriter, SAMIReader),
+             (MicroDVDWriter, MicroDVDReader), (SCCWriter, SCCReader)]
+    for first in (" ", "\u00a0", "  \t", ""):
+        for start in (10 ** 6, 0):
+            cs = CaptionSet({"en-US": CaptionList([Caption(start, 2 * 10 ** 6, [T(first)]), Caption(3 * 10 ** 6, 4 * 10 ** 6, [T("hello there")])])})
+            for Wr, Rd in pairs:
+                def one(Wr=Wr, Rd=Rd, cs=cs):
+                    doc = Wr().write(cs)
+                    got = detect_format(doc)
+                    if got is not Rd:
+                        return False, {"writer_output_detected_as": repr(got), "expected": Rd.__name__, "doc": doc[:200]}
+                    try:
+                        back = Rd().read(doc)
+                    except Exception as e:
+                        return False, {"writer": Wr.__name__, "its_reader_raises": repr(e)[:200], "doc": doc[:300]}
+                    texts = [c_.get_text() for l in back.get_languages() for c_ in back.get_captions(l)]
+                    return any("hello there" in t_.replace("\n", " ") for t_ in texts), {"writer": Wr.__name__, "texts_read": texts, "doc": doc[:300]}
+                b.guard(("blank-first", Wr.__name__, first, start), one, sample={"writer": Wr.__name__, "first_cue_text": first, "first_cue_start": start})
+
+
 def run(ctx):
     P = ctx.prove
     ctx.ground("SUPPORTED_READERS/order", order_is_documented)
@@ -304,6 +328,9 @@ def run(ctx):
     ctx.bounded("early_cues", "caption sets of one to three long two-row cues that start within their own SCC transmission time "
                 "of zero, through the six writers: detected as the writer's format, read back by that reader with every cue",
                 lambda b: bounded_early_cues(ctx, b))
+    ctx.bounded("blank_first_cue", "caption sets whose first cue holds white space only (blank, tab, no-break space, empty) "
+                "followed by a cue with text, first cue at 1 s and at 0, through the six writers: detected as the writer's "
+                "format and read by that reader", lambda b: bounded_blank_first_cue(ctx, b))
     ctx.frame("detection_has_no_memory", detection_has_no_memory)
     ctx.bounded("sequences", "every ordered pair (a document of each format or of none detected first, then one of 14 strings "
                 "that several readers or none accept): the second answer is the first accepting reader of the documented "
